@@ -150,11 +150,25 @@ def judge(trace, tokens, limit):
     snaps = [parse_snapshot(p) for p in parts[:-1]]
     turns, _ = to_turns(tokens)
     faulted = False; prev = None; stopped = False
-    disp_prev = 0
+    disp_prev = 0; deaths = {}; replaced = {}
     for k, sn in enumerate(snaps):
         ops_before = turns[k - 1][0] if k >= 1 and k - 1 < len(turns) else []
         evs_before = turns[k - 1][1] if k >= 1 and k - 1 < len(turns) else []
         if any(o.startswith('die') for o in ops_before): faulted = True
+        for o in ops_before:
+            if o.startswith('die'): deaths[int(o[3:])] = deaths.get(int(o[3:]), 0) + 1
+            if o.startswith('replace'): replaced[int(o[7:])] = replaced.get(int(o[7:]), 0) + 1
+        reported = {}
+        for c in sn['cmd']:
+            if c.startswith('F'): reported[int(c[1:])] = reported.get(int(c[1:]), 0) + 1
+        for i in set(list(reported) + list(deaths)):
+            if reported.get(i, 0) + replaced.get(i, 0) > deaths.get(i, 0): bad.add('C08/at_most_one_fault_report_per_dead_worker')
+        if len(set(sn['H'])) != len(sn['H']): bad.add('C08/handle_indices_unique_in_rotation')
+        latest = {}
+        for wk in sn['workers']: latest[wk['idx']] = wk
+        for i, wk in latest.items():
+            if not wk['alive'] and i not in sn['H'] and reported.get(i, 0) + replaced.get(i, 0) < deaths.get(i, 0):
+                bad.add('C08/removed_worker_is_reported_faulted')
         if 'stop' in ops_before: stopped = True
         cur = {}
         for wk in sn['workers']: cur[wk['idx']] = wk
